@@ -1,8 +1,46 @@
+import Driver.C01
+import Driver.C02
+import Driver.C03
+import Driver.C04
+import Driver.C05
+import Driver.C06
+import Driver.C07
+import Driver.C08
 import Driver.C09
+import Driver.C10
+import Driver.C11
+import Driver.C12
+import Driver.C13
+import Driver.C14
+import Driver.C15
+import Driver.C16
+import Driver.C17
+import Driver.C18
+import Driver.C19
+import Driver.C20
 
 def dispatch (prop : String) (case obs : List String) : String × String :=
   match prop with
+  | "C01" => DriverC01.handle case obs
+  | "C02" => DriverC02.handle case obs
+  | "C03" => DriverC03.handle case obs
+  | "C04" => DriverC04.handle case obs
+  | "C05" => DriverC05.handle case obs
+  | "C06" => DriverC06.handle case obs
+  | "C07" => DriverC07.handle case obs
+  | "C08" => DriverC08.handle case obs
   | "C09" => DriverC09.handle case obs
+  | "C10" => DriverC10.handle case obs
+  | "C11" => DriverC11.handle case obs
+  | "C12" => DriverC12.handle case obs
+  | "C13" => DriverC13.handle case obs
+  | "C14" => DriverC14.handle case obs
+  | "C15" => DriverC15.handle case obs
+  | "C16" => DriverC16.handle case obs
+  | "C17" => DriverC17.handle case obs
+  | "C18" => DriverC18.handle case obs
+  | "C19" => DriverC19.handle case obs
+  | "C20" => DriverC20.handle case obs
   | _ => ("unknown-property", "fail:unknown-property")
 
 partial def loop (h : IO.FS.Stream) (out : IO.FS.Stream) : IO Unit := do
